@@ -115,8 +115,10 @@ R.contract(
     requires=["len(argv) >= 1"],
     ensures=[
         "before_dd(self._option_tokens, self._tokens)",
-        "self._script_name == argv[0]",
-        "self._tokens == argv[1:]",
+        "self._script_name == old(seq(argv))[0]",
+        "seq(self._tokens) == old(seq(argv))[1:]",
+        # C05: the caller's list is neither emptied nor shared
+        "seq(argv) == old(seq(argv))",
         # C05: the caller's list is left alone (the object works on its own copies)
         "fresh(self._tokens) and fresh(self._option_tokens)",
     ],
